@@ -44,7 +44,11 @@ class EventWrapper:
         self._event = trio.Event()
 
     async def clear(self) -> None:
-        self._event = trio.Event()
+        # A trio event cannot be cleared, it is replaced. Only a set
+        # event is though, replacing an unset one would leave those
+        # waiting on it waiting for ever (it is never set again).
+        if self._event.is_set():
+            self._event = trio.Event()
 
     async def wait(self) -> None:
         await self._event.wait()
